@@ -108,6 +108,12 @@ type SlowBudget interface {
 	SlowWallSeconds() int
 }
 
+// WorkerBudget lets a check raise the driver's per-worker wall-clock watchdog (default 40 minutes).
+// Like SlowBudget it only turns a wall-clock give-up into "inconclusive", never into a verdict.
+type WorkerBudget interface {
+	WorkerWallMinutes() int
+}
+
 // Sharder lets a check choose the number of worker processes.
 type Sharder interface {
 	Shards(cfg *Config) int
@@ -485,11 +491,15 @@ func Drive(cfg *Config, chk Check) *Aggregate {
 	var mu sync.Mutex
 	var wg sync.WaitGroup
 	sem := make(chan struct{}, cfg.Workers)
+	workerWall := 40 * time.Minute
+	if wb, ok := chk.(WorkerBudget); ok {
+		workerWall = time.Duration(wb.WorkerWallMinutes()) * time.Minute
+	}
 	for s := 0; s < shards; s++ {
 		wg.Add(1)
+		sem <- struct{}{} // acquired here, not in the goroutine: shards start in index order (long shards can be put first)
 		go func(shard int) {
 			defer wg.Done()
-			sem <- struct{}{}
 			defer func() { <-sem }()
 			start := shard
 			restarts := 0
@@ -518,7 +528,7 @@ func Drive(cfg *Config, chk Check) *Aggregate {
 				var werr error
 				select {
 				case werr = <-done:
-				case <-time.After(40 * time.Minute):
+				case <-time.After(workerWall):
 					cmd.Process.Signal(syscall.SIGQUIT)
 					select {
 					case werr = <-done:
@@ -526,7 +536,7 @@ func Drive(cfg *Config, chk Check) *Aggregate {
 						cmd.Process.Kill()
 						werr = <-done
 					}
-					werr = fmt.Errorf("worker watchdog (40 min) fired: %v", werr)
+					werr = fmt.Errorf("worker watchdog (%v) fired: %v", workerWall, werr)
 				}
 				ef.Close()
 				complete, lastHang := mergeWorkerFile(out, agg, &mu)
